@@ -12,6 +12,14 @@ keyword, reversed keywords, positionally, mixed, through the stacked view, throu
 MultipleLikelihoodPosterior decomposition and factor by factor - equals the harness' own reference joint
 log-density (sum of scipy/explicit textbook densities).  Malformed calls (missing / unknown / doubly specified
 / one positional too many) must raise in every reachable state, on the object and on each of its factors.
+
+Over-specification alphabet (once per (graph, fixed set) state, on the state object, each of its factors and its
+stacked view): every positional prefix length x every prefix variable repeated by keyword x the complete value
+catalogue of the repeated argument (probe value, non-zero of either sign, every representation of zero, non-numeric
+placeholders), on the evaluation route (logd: must raise for every value) and on the conditioning route (__call__:
+refusal must not depend on the value; an accepted call must give an object that evaluates to the reference under
+the positional or the keyword reading); a surplus keyword (unknown name / every other variable of the graph) x
+keyword or positional complete assignment x value; one positional too many x value.
 """
 import itertools
 import numpy as np
@@ -24,15 +32,22 @@ RULE = ("cells = model graph x value catalogue; inside a cell every conditioning
         "disjoint non-empty variable subsets x passing mode per step) is replayed on fresh objects and every "
         "prefix state is evaluated in all call forms against an independent reference joint log-density; "
         "states = (graph, fixed-set) keys, transitions = conditioning edges + log-density calls executed, "
-        "traces = maximal histories (all variables fixed) whose every prefix was compared with the reference; a "
+        "traces = maximal histories (all variables fixed) whose every prefix was compared with the reference; "
+        "once per (graph, fixed set) the over-specified call shapes (positional+keyword for one variable, surplus "
+        "keyword, extra positional) are enumerated x the value catalogue of the repeated/surplus argument on the "
+        "evaluation and the conditioning route of the state object, its factors and its stacked view; a "
         "cell is non-trivial when at least one history reduced the joint to a single density")
 BOUND = {
     "quick": "11 graphs (G1-G5,G6a,G6b,G7,G8,G9 with <=4 variables, G10 with 5; dims<=4), 1 value catalogue (seed%3); all ordered "
              "set partitions of all variable subsets; per step modes {keyword, reversed keyword, positional prefix}; "
-             "7 malformed call forms on every state object and each of its factors",
+             "7 malformed call forms on every state object (every history) and each of its factors; per (graph, fixed set) "
+             "state, on the state object / each factor / the stacked view: {positional prefix length 1..n} x {repeated prefix "
+             "variable} x {logd, __call__} x 14-15 values (probe, +/- non-zero, 9 representations of zero incl. one-element "
+             "and full-size zero arrays, False/None/empty), {unknown name, every other graph variable} surplus keyword x "
+             "{keyword, positional} x values, extra positional x values",
     "thorough": "same 10 graphs x all 3 value catalogues; per step modes {every keyword order, positional prefix, "
                 "first-variable positional + rest keyword}; plus the 5-variable graph G10 x 3 catalogues with the "
-                "quick tier's step modes",
+                "quick tier's step modes; the over-specification alphabet of the quick tier on every graph x catalogue",
 }
 ASSUMPTIONS = [
     "one probe assignment per value catalogue (values dyadic, admissible: positive hyper-parameters, Beta in (0,1), "
@@ -45,12 +60,45 @@ ASSUMPTIONS = [
     "likelihood); they are reported with count 0",
     "a refused conditioning step on a reachable state is reported (the statement promises an object), any exception "
     "type is accepted for malformed calls; the degenerate stacked view of a joint with no free variable may raise",
+    "the statement demands refusal of doubly specified EVALUATIONS only; a doubly specified CONDITIONING call may be "
+    "accepted (Distribution/Posterior accept their own variable by position and by name: the positional value wins) as long "
+    "as acceptance is the same for every value of the catalogue and the result equals the reference under one of the two "
+    "readings; unknown keywords / surplus positionals of conditioning calls are not judged",
+    "the value catalogue of over-specified calls is enumerated once per (graph, fixed set, component), on the object reached "
+    "by the first history that arrives there (the argument parser sees the object's factor list, which is a function of the "
+    "fixed set), not once per history",
     "library objects are held only in obj*/_* names or containers so that stack-based name inference cannot pick "
     "up harness variable names",
 ]
 
 RTOL = 1e-9
 UNK = "zz_unknown"
+
+
+def surplus_values(v):
+    """Value catalogue of an argument that is given twice or in excess: (kind, class, fresh value).
+
+    v is the probe value of the variable concerned (float or 1-d array).  The catalogue holds the probe value
+    itself, a non-zero value of either sign, every representation of zero (python int / float / negative zero,
+    numpy scalar, 0-d, one-element float and integer arrays, one-element list, full-size zero vector) and three
+    non-numeric placeholders.  Whether a call is doubly / over specified is a property of its argument NAMES, so
+    the demanded refusal is the same for every entry."""
+    a = np.atleast_1d(np.asarray(v, dtype=float))
+    big = np.abs(a) + 1.0
+
+    def like(x):
+        return x.copy() if isinstance(v, np.ndarray) else float(x[0])
+    out = [("equal", "equal", GR.copy_val(v)), ("positive", "nonzero", like(big)), ("negative", "nonzero", like(-big)),
+           ("int0", "zero", 0), ("float0", "zero", 0.0), ("negzero", "zero", -0.0), ("npfloat0", "zero", np.float64(0.0)),
+           ("zeros0d", "zero", np.array(0.0)), ("zeros1", "zero", np.zeros(1)), ("intzeros1", "zero", np.zeros(1, dtype=int)),
+           ("list0", "zero", [0.0])]
+    if a.size > 1:
+        out.append(("zerosdim", "zero", np.zeros(a.size)))
+    out += [("false", "non-numeric", False), ("none", "non-numeric", None), ("empty", "non-numeric", np.zeros(0))]
+    return out
+
+
+N_KINDS = {True: len(surplus_values(np.ones(2))), False: len(surplus_values(1.0))}
 
 
 def cells(tier, seed):
@@ -138,6 +186,7 @@ class Explorer:
         self.bykey = {}      # frozenset(fixed) -> list of observations
         self.refbad = set()  # keys with a reference failure (differential not reported twice)
         self.reduced = False
+        self.over_seen = set()  # (component, fixed set, parameter order) whose over-specification catalogue was enumerated
 
     # -- failure helpers --------------------------------------------------------------------
     def fail(self, sig, msg, history, **detail):
@@ -318,6 +367,7 @@ class Explorer:
             if remaining or out2[0] == "ok":
                 other("stacked", out2)
             res.count("view:stacked")
+            self.overspecified_stacked(obj, br, key, history)
         # 3. Posterior / MLP decomposition: log-likelihood + log-prior + contribution of every fixed variable
         if br in ("Posterior", "MultipleLikelihoodPosterior") and names:
             x = names[0]
@@ -343,6 +393,7 @@ class Explorer:
                 self.eval_factor(obj, br, fname, fixed, history)
         # 5. malformed calls on the state object
         self.malformed(obj.logd, names, br, history)
+        self.overspecified(obj, names, br, history, None, okey=(br, key, tuple(names)))
         if len(res.failures) > nfail0:
             self.refbad.add(key)
         self.bykey.setdefault(key, []).append({"history": history, "value": vkw, "branch": br, "names": tuple(names)})
@@ -383,6 +434,8 @@ class Explorer:
                 self.fail("factor:%s|logd|mode=positional" % fb, "factor %s logd(positional) = %.15g, reference %.15g" % (fname, o[1], self.reffac[fname]), history)
         res.count("factor:" + fb)
         self.malformed(_f.logd, fn, "factor:" + fb, history, tag="factor %s " % fname)
+        self.overspecified(_f, fn, "factor:" + fb, history, fname, okey=("factor:" + fb, fname, frozenset(fixed), tuple(fn)),
+                           tag="factor %s " % fname)
 
     def malformed(self, logd, names, comp, history, tag=""):
         """Every malformed call form must be refused with an exception."""
@@ -417,6 +470,181 @@ class Explorer:
                       "%smalformed logd call (%s; positional=%d, keywords=%s) returned %r instead of raising"
                       % (tag, kind, len(a), sorted(kw), np.asarray(out).ravel()[:3].tolist()), history)
             res.outcomes.add("malformed-returned:%s:%s" % (comp, kind))
+
+    # -- over-specified calls: full value catalogue --------------------------------------------------
+    def ref_reading(self, fname, dup=None, val=None):
+        """Reference log-density (joint, or factor fname) with variable dup read as val; None when val is not a value
+        of that variable's shape or the reference is not finite there."""
+        vals = self.vals
+        if dup is not None:
+            try:
+                a = np.asarray(val, dtype=float)
+                w = np.asarray(self.vals[dup], dtype=float)
+                if a.size != w.size or not np.all(np.isfinite(a)):
+                    return None
+                vals = dict(self.vals)
+                vals[dup] = a.reshape(w.shape).copy() if isinstance(self.vals[dup], np.ndarray) else float(a.ravel()[0])
+                with np.errstate(all="ignore"):
+                    fac = self.g.ref_factors(self.k, vals)
+            except Exception:  # noqa
+                return None
+        else:
+            fac = self.reffac
+        r = float(fac[fname]) if fname is not None else float(sum(fac.values()))
+        return r if np.isfinite(r) else None
+
+    def judge_uniform(self, comp, op, shape, acc, ref_kinds, history, tag, must_refuse):
+        """acc: kinds accepted, ref_kinds: kinds refused - over the value catalogue of ONE call shape."""
+        res = self.res
+        res.evaluations += 1
+        if not acc:
+            res.count("overspecified_shapes_refused")
+            return True
+        if ref_kinds:
+            self.fail("%s|%s|%s,value-dependent" % (comp, op, shape),
+                      "%s: the same over-specified call is refused for the value kinds {%s} but ACCEPTED for {%s}; whether a "
+                      "variable is specified twice / in excess does not depend on its value"
+                      % (tag, ",".join(ref_kinds), ",".join(k for k, _o in acc)), history)
+            res.outcomes.add("overspecified-value-dependent:%s:%s:%s" % (comp, op, shape))
+            return False
+        if must_refuse:
+            self.fail("%s|%s|%s" % (comp, op, shape), "%s: over-specified call accepted for every value of the catalogue (e.g. "
+                      "returned %r) instead of raising" % (tag, np.asarray(acc[0][1]).ravel()[:3].tolist()), history)
+            res.outcomes.add("overspecified-returned:%s:%s:%s" % (comp, op, shape))
+            return False
+        return True
+
+    def overspecified(self, _o, names, comp, history, fname, okey, tag=""):
+        """Every over-specified call shape x the complete value catalogue of the repeated / surplus argument.
+
+        evaluation route (logd): must be refused for every value;
+        conditioning route (__call__, positional prefix + keyword for one of the prefix variables): the statement only
+        demands refusal of evaluations, so a conditioning call may be accepted - but then for EVERY value of the catalogue
+        (refusal must not depend on the value), and the returned object must evaluate to the reference log-density under
+        one of the two readings (positional value / keyword value)."""
+        if okey in self.over_seen or not names:
+            return
+        self.over_seen.add(okey)
+        res = self.res
+        v = self.vals
+        n = len(names)
+        res.count("overspecified_objects")
+
+        def run(fn, a, kw):
+            res.transitions += 1
+            res.count("overspecified_calls")
+            try:
+                return True, fn(*a, **kw)
+            except Exception as e:  # noqa
+                res.count("overspecified_refused")
+                res.outcomes.add("refuse-over:%s" % type(e).__name__)
+                return False, e
+
+        # (a) one variable by position AND by keyword: positional prefix of every length x doubled variable x value
+        for p in range(1, n + 1):
+            for dup in names[:p]:
+                shape = "double:positional+keyword"
+                where = "%s%s (positional %s + keyword %s)" % (tag, comp, names[:p], dup)
+                # evaluation: prefix by position, the rest and the doubled variable by keyword
+                acc, rej = [], []
+                for kind, _cls, val in surplus_values(v[dup]):
+                    kw = _cp(v, names[p:])
+                    kw[dup] = val
+                    ok, out = run(_o.logd, [GR.copy_val(v[m]) for m in names[:p]], kw)
+                    (acc if ok else rej).append((kind, out))
+                self.judge_uniform(comp, "malformed-call", shape, acc, [k for k, _e in rej], history, where + ".logd", True)
+                # conditioning: prefix by position + the doubled variable by keyword
+                acc, rej = [], []
+                for kind, _cls, val in surplus_values(v[dup]):
+                    ok, out = run(_o, [GR.copy_val(v[m]) for m in names[:p]], {dup: val})
+                    (acc if ok else rej).append((kind, (out, val) if ok else out))
+                res.outcomes.add("double-condition:%s:%s" % (comp, "refused" if not acc else "accepted" if not rej else "mixed"))
+                if self.judge_uniform(comp, "malformed-condition", shape, [(k, "<object>") for k, _x in acc], [k for k, _e in rej],
+                                      history, where + " conditioning", False) and acc:
+                    res.count("double_condition_accepted_uniformly")
+                    for kind, (_child, val) in acc:
+                        res.evaluations += 1
+                        try:
+                            got = GR.scalar(_child.logd(**_cp(v, names[p:])))
+                        except Exception as e:  # noqa
+                            got = e
+                        cands = [self.ref_reading(fname), self.ref_reading(fname, dup, val)]
+                        if isinstance(got, Exception) or not any(c is not None and close(got, c, RTOL) for c in cands):
+                            self.fail("%s|malformed-condition|%s,accepted-wrong-value" % (comp, shape),
+                                      "%s conditioning accepted (keyword value kind %s) but the object evaluates to %r; reference "
+                                      "under the positional / keyword reading: %r" % (where, kind, got, cands), history)
+                            break
+        # (b) complete assignment + one surplus keyword: surplus name x value, keyword and positional form
+        others = [UNK] + [m for m in self.g.free + self.g.data0 if m not in names]
+        for sname in others:
+            for form in ("keywords", "positional"):
+                acc, rej = [], []
+                for kind, _cls, val in surplus_values(v[sname] if sname in v else 0.5):
+                    if form == "keywords":
+                        a, kw = [], _cp(v, names)
+                    else:
+                        a, kw = [GR.copy_val(v[m]) for m in names], {}
+                    kw[sname] = val
+                    ok, out = run(_o.logd, a, kw)
+                    (acc if ok else rej).append((kind, out))
+                shape = "surplus-keyword:%s,%s" % ("unknown-name" if sname == UNK else "other-variable", form)
+                self.judge_uniform(comp, "malformed-call", shape, acc, [k for k, _e in rej], history,
+                                   "%s%s.logd (complete %s + surplus keyword %s)" % (tag, comp, form, sname), True)
+        # (c) one positional value too many x value
+        acc, rej = [], []
+        for kind, _cls, val in surplus_values(0.5):
+            ok, out = run(_o.logd, [GR.copy_val(v[m]) for m in names] + [val], {})
+            (acc if ok else rej).append((kind, out))
+        self.judge_uniform(comp, "malformed-call", "extra-positional", acc, [k for k, _e in rej], history, "%s%s.logd (complete positional + one extra positional)" % (tag, comp), True)
+
+    def overspecified_stacked(self, obj, br, key, history):
+        """Stacked view of a (conditioned) joint: the vector plus a keyword / a second vector must be refused; conditioning the
+        stacked view by position + keyword goes through the same judge as every other conditioning call."""
+        okey = ("stacked", br, key)
+        if okey in self.over_seen:
+            return
+        try:
+            _st = obj._as_stacked()
+            sn = list(_st.get_parameter_names())
+        except Exception:  # noqa   (judged by eval_state)
+            return
+        if not sn:
+            return
+        self.over_seen.add(okey)
+        res = self.res
+        v = self.vals
+        comp = "stacked:" + br
+        vec = lambda: np.hstack([np.atleast_1d(GR.copy_val(v[m])) for m in sn])  # noqa
+        cells_ = [("double:vector+keyword", m, v[m]) for m in sn] + [("surplus-keyword:unknown-name,vector", UNK, 0.5),
+                                                                     ("extra-positional", None, 0.5)]
+        for shape, name, probe in cells_:
+            acc, rej = [], []
+            for kind, _cls, val in surplus_values(probe):
+                res.transitions += 1
+                res.count("overspecified_calls")
+                try:
+                    out = _st.logd(vec(), val) if name is None else _st.logd(vec(), **{name: val})
+                    acc.append((kind, out))
+                except Exception as e:  # noqa
+                    res.count("overspecified_refused")
+                    rej.append((kind, e))
+            self.judge_uniform(comp, "malformed-call", shape, acc, [k for k, _e in rej], history, "stacked logd (%s %s)" % (shape, name), True)
+        # conditioning the stacked view: positional prefix + keyword for a prefix variable
+        for p in range(1, len(sn) + 1):
+            for dup in sn[:p]:
+                acc, rej = [], []
+                for kind, _cls, val in surplus_values(v[dup]):
+                    res.transitions += 1
+                    res.count("overspecified_calls")
+                    try:
+                        _st2 = obj._as_stacked()
+                        _c = _st2(*[GR.copy_val(v[m]) for m in sn[:p]], **{dup: val})
+                        acc.append((kind, "<object>"))
+                    except Exception as e:  # noqa
+                        res.count("overspecified_refused")
+                        rej.append((kind, e))
+                self.judge_uniform(comp, "malformed-condition", "double:positional+keyword", acc, [k for k, _e in rej], history,
+                                   "stacked view conditioned (positional %s + keyword %s)" % (sn[:p], dup), False)
 
     # -- differential oracle ---------------------------------------------------------------------
     def differential(self):
